@@ -1,3 +1,4 @@
+import Zeno.Proofs.LifeFetch
 import Zeno.Proofs.Stages
 import Zeno.Proofs.Item
 import Zeno.Gen.Stages
@@ -95,5 +96,38 @@ example :
     let s3 := seencheck seedT [a] s2.1
     let s4 := seencheck seedT [a] s3.1
     (s1.2, s2.2, s3.2, s4.2) = ([], ["a"], [], ["a"]) := by decide
+
+/-! ## across all the passes of a seed
+
+`lifeReqs` (Proofs/LifeFetch.lean) lists, pass after pass of a seed's life through the stage models (Model/Life.lean), the non-seed
+nodes that get a request, as (id, canonical URL). -/
+
+theorem life_facts_ok : (okPost S && okSets I && okDedupe I && !(S.preSeencheckGuard == "always")) = true := by decide
+
+/-- **Within one seed's tree no URL is fetched by two different non-seed nodes — in any pass, nor across passes.** Whatever the
+normaliser, the site and the extractors answer in whichever pass (domains-crawl off, node ids distinct): the canonical URLs of all
+the requests made for non-seed nodes during the seed's life are pairwise distinct. (De-duplication makes the URLs below the seed
+distinct before any request is built; a node that was processed once is never removed — the filters and the de-duplication drop
+Fresh nodes only — so it is still there, with its URL, when a later duplicate shows up, and wins.) -/
+theorem c08_no_url_fetched_twice (cfg : Cfg) (hdc : cfg.domainsCrawl = false) (os : List Zeno.Model.Life.Oracle) (seen : Seen) (i : Info)
+    (hf : i.st = .fresh) (hr : i.redirects = 0)
+    (hids : Zeno.Model.Life.idsOK S I cfg os seen (.node i .nil) = true) :
+    ((Zeno.Model.Life.lifeReqs S I cfg os seen (.node i .nil)).map Prod.snd).Nodup := by
+  have h := Zeno.Model.Life.life_fetch S (by decide) (by decide) I (by decide) (by decide) cfg hdc os seen 0 (.node i .nil) []
+    (Zeno.Model.Life.start_seed cfg.maxRedirect i hf hr) (Zeno.Model.Life.Tree.wp_zero _)
+    (by intro a ha; simp [Zeno.Model.Life.NS, Tree.kids, Forest.flatten] at ha) hids ⟨List.nodup_nil, by intro p hp; cases hp⟩
+  simpa using h
+
+/-- non-vacuity: a page with two images, the second of which redirects to the first one's URL — fetched once -/
+example :
+    let seed : Tree := .node { id := "s", url := "", st := .fresh, raw := "r" } .nil
+    let nr (u : String) : Option NormRes := some { canon := u, host := "h.x", path := "/x" }
+    let o1 : Zeno.Model.Life.Oracle :=
+      { norm := fun id => if id == "s" then nr "u" else if id == "k1" then nr "a" else if id == "k2" then nr "b" else nr "a",
+        srv := fun id => if id == "s" then some { status := 200, html := true, body := true } else if id == "k2" then some { status := 302, loc := "a" } else some { status := 200 },
+        ex := fun id => if id == "s" then { assets := [("k1", "a"), ("k2", "b")] } else if id == "k2" then { assets := [("k3", "a")] } else {} }
+    Zeno.Model.Life.lifeReqs S I {} [o1, o1, o1, o1] [] seed = [("k1", "a"), ("k2", "b")] ∧
+    Zeno.Model.Life.idsOK S I {} [o1, o1, o1, o1] [] seed = true := by
+  decide +kernel
 
 end Zeno.Props.C08
